@@ -223,9 +223,10 @@ pub fn discover_tys(
         OwnedDataModelType::U64 => {}
         OwnedDataModelType::U128 => {}
 
-        // TODO: usize and isize don't impl Schema, which, fair.
-        OwnedDataModelType::Usize => unreachable!(),
-        OwnedDataModelType::Isize => unreachable!(),
+        // usize and isize don't impl Schema, but they can still appear in an owned
+        // schema (e.g. one received from a peer): they are leaves like the other integers
+        OwnedDataModelType::Usize => {}
+        OwnedDataModelType::Isize => {}
         //
         OwnedDataModelType::F32 => {}
         OwnedDataModelType::F64 => {}
@@ -256,6 +257,6 @@ pub fn discover_tys(
                 discover_tys_data(&variant.data, set);
             }
         }
-        OwnedDataModelType::Schema => todo!(),
+        OwnedDataModelType::Schema => {}
     };
 }
